@@ -393,6 +393,13 @@ class CallMixin:
             if isinstance(v.ty, T.Seq):
                 return v           # np.array(list): the same sequence of values
             raise Unsupported(f"np.array of {v.ty}")
+        if name == "dict.fromkeys" and len(e.args) == 1 and not e.keywords:
+            # dict.fromkeys(xs): the distinct elements of xs as keys (values None, never read here); iterating it visits every distinct element once
+            v = self.ev(e.args[0], p)
+            sv = self.as_set(v, p)
+            if sv.ty == T.EMPTYSET:
+                return SV(T.EMPTYDICT)
+            return T.sv_map(sv.ty.e, T.BOOL, sv.t, z3.K(sv.ty.e.sort(), z3.BoolVal(False)))
         if name == "random.seed":
             for a in e.args:
                 self.ev(a, p)
